@@ -437,3 +437,534 @@ func c08ExprList(es []*Expr) string {
 	}
 	return strings.Join(ss, " ; ")
 }
+
+// ---------------------------------------------------------------------------
+// General min-fold analysis (round 2).  Shape-independent: the folded value may
+// be a phi, a loop accumulator, the set of values returned by early returns,
+// the set of arguments of several calls to one consumer, the result of a pure
+// same-module helper that lowers one of its parameters, or builtin min.
+
+// c08Alt is one place where a candidate value becomes the result: on a CFG
+// edge into a phi (P→S), or at an instruction that consumes it (At).
+type c08Alt struct {
+	Val  ssa.Value
+	P, S *ssa.BasicBlock
+	At   ssa.Instruction
+}
+
+func (a c08Alt) block() *ssa.BasicBlock {
+	if a.At != nil {
+		return a.At.Block()
+	}
+	return a.P
+}
+
+func (a c08Alt) pos() token.Pos {
+	if a.At != nil {
+		return instrPos(a.At)
+	}
+	if a.P != nil && len(a.P.Instrs) > 0 {
+		return instrPos(a.P.Instrs[len(a.P.Instrs)-1])
+	}
+	return token.NoPos
+}
+
+func (c *Ctx) c08AltGuarded(a c08Alt, bars []Barrier) (bool, string) {
+	if len(bars) == 0 {
+		return false, ""
+	}
+	if a.At != nil {
+		ug, tr := c.unguarded(a.At, bars, TopLevel(a.At.Parent()))
+		return !ug, tr
+	}
+	return c.c08EdgeGuarded(a.P, a.S, bars)
+}
+
+// c08Expand replaces phi-valued sinks by the edges on which non-phi values
+// enter the phi family; returns the entries and the family.  through (optional)
+// names, for a value that is a lowering step applied to an accumulator
+// (helper(acc, …) / min(acc, …)), the accumulator operand(s): a phi found there
+// belongs to the same accumulator and is walked too.
+func c08Expand(sinks []c08Alt, through func(v ssa.Value) []ssa.Value) ([]c08Alt, map[*ssa.Phi]bool) {
+	fam := map[*ssa.Phi]bool{}
+	var out []c08Alt
+	var walk func(p *ssa.Phi)
+	follow := func(v ssa.Value) {
+		if through == nil {
+			return
+		}
+		for _, a := range through(v) {
+			if q, ok := a.(*ssa.Phi); ok {
+				walk(q)
+			}
+		}
+	}
+	walk = func(p *ssa.Phi) {
+		if fam[p] {
+			return
+		}
+		fam[p] = true
+		for i, e := range p.Edges {
+			if q, ok := e.(*ssa.Phi); ok {
+				walk(q)
+				continue
+			}
+			out = append(out, c08Alt{Val: e, P: p.Block().Preds[i], S: p.Block()})
+			follow(e)
+		}
+	}
+	for _, s := range sinks {
+		if p, ok := s.Val.(*ssa.Phi); ok {
+			walk(p)
+		} else {
+			out = append(out, s)
+			follow(s.Val)
+		}
+	}
+	return out, fam
+}
+
+// c08LoweringOperands: for helper(acc, …) with helper a lowering step in that
+// parameter, or builtin min(…), the operand(s) that play the accumulator.
+func (c *Ctx) c08LoweringOperands(v ssa.Value, depth int) []ssa.Value {
+	call, ok := v.(*ssa.Call)
+	if !ok || depth >= 3 {
+		return nil
+	}
+	if b, ok := call.Call.Value.(*ssa.Builtin); ok && b.Name() == "min" {
+		return call.Call.Args
+	}
+	h := call.Call.StaticCallee()
+	if h == nil || len(h.Blocks) == 0 || h.Parent() != nil || h.Pkg == nil || call.Parent() == nil || h.Pkg != call.Parent().Pkg {
+		return nil
+	}
+	for i, p := range h.Params {
+		if !types.Identical(p.Type(), call.Type()) {
+			continue
+		}
+		if _, ok := c.c08HelperStep(h, i, depth+1); ok {
+			return []ssa.Value{call.Call.Args[i]}
+		}
+	}
+	return nil
+}
+
+type c08FoldOpt struct {
+	Skip  []Barrier      // the only legitimate reasons for not applying an alternative that is not available on a path
+	Extra []Barrier      // additional edges accepted for taking a candidate (e.g. "first element")
+	Acc   *ssa.Parameter // helper analysis: the parameter that plays the accumulator
+	depth int
+}
+
+// c08Term is one folded candidate, described in the analysed function's terms
+// (helper parameters substituted by the call-site arguments), and the place
+// where it enters the result.
+type c08Term struct {
+	E   *Expr
+	Loc c08Alt
+}
+
+type c08Problem struct {
+	Pos token.Pos
+	Msg string
+}
+
+type c08HelperKey struct {
+	fn  *ssa.Function
+	idx int
+}
+
+type c08HelperInfo struct {
+	ok    bool
+	terms []c08Term
+}
+
+var c08HelperMemo = map[c08HelperKey]*c08HelperInfo{}
+
+// c08HelperStep: fn is a pure lowering step in parameter idx — every value it
+// returns is that parameter or a candidate taken only where candidate <
+// parameter (or as a pairwise minimum).  Returns the candidates (in fn's terms).
+func (c *Ctx) c08HelperStep(fn *ssa.Function, idx, depth int) ([]c08Term, bool) {
+	k := c08HelperKey{fn, idx}
+	if h, ok := c08HelperMemo[k]; ok {
+		return h.terms, h.ok
+	}
+	c08HelperMemo[k] = &c08HelperInfo{} // recursion guard
+	info := &c08HelperInfo{}
+	if fn != nil && len(fn.Blocks) > 0 && idx < len(fn.Params) && fn.Signature.Results().Len() == 1 {
+		var sinks []c08Alt
+		for _, in := range returnsWhere(fn, 0, nil) {
+			sinks = append(sinks, c08Alt{Val: in.(*ssa.Return).Results[0], At: in})
+		}
+		acc := fn.Params[idx]
+		ents, _ := c08Expand(sinks, nil)
+		kept := false
+		for _, e := range ents {
+			if e.Val == ssa.Value(acc) {
+				kept = true
+			}
+		}
+		if kept && len(sinks) > 0 {
+			terms, probs, _ := c.c08FoldCore(sinks, c08FoldOpt{Acc: acc, depth: depth})
+			if len(probs) == 0 && len(terms) > 0 {
+				info.ok, info.terms = true, terms
+			}
+		}
+	}
+	c08HelperMemo[k] = info
+	return info.terms, info.ok
+}
+
+// c08Subst clones e replacing the parameters of fn by the call-site arguments.
+func c08Subst(e *Expr, fn *ssa.Function, args []*Expr, d int) *Expr {
+	if e == nil || d > 30 {
+		return e
+	}
+	if e.K == EParam {
+		if p, ok := e.V.(*ssa.Parameter); ok && p.Parent() == fn && e.Idx >= 0 && e.Idx < len(args) {
+			return args[e.Idx]
+		}
+		return e
+	}
+	cp := *e
+	cp.X = c08Subst(e.X, fn, args, d+1)
+	cp.Y = c08Subst(e.Y, fn, args, d+1)
+	if len(e.Args) > 0 {
+		cp.Args = make([]*Expr, len(e.Args))
+		for i, a := range e.Args {
+			cp.Args[i] = c08Subst(a, fn, args, d+1)
+		}
+	}
+	return &cp
+}
+
+// c08FoldCore decides that the value reaching the sinks is the minimum of its
+// candidates and can only be lowered: each entry is (1) the accumulator itself,
+// (2) a lowering helper / builtin min applied to the accumulator, (3) taken only
+// behind candidate < accumulator, or (4) taken only where it is <= every other
+// alternative that is available there (alternatives that are not available are
+// accepted only behind opt.Skip when given).
+func (c *Ctx) c08FoldCore(sinks []c08Alt, opt c08FoldOpt) (terms []c08Term, probs []c08Problem, checks int) {
+	ents, fam := c08Expand(sinks, func(v ssa.Value) []ssa.Value { return c.c08LoweringOperands(v, opt.depth) })
+	// an incarnation of the accumulator: a family phi, the accumulator
+	// parameter, or a lowering step (helper / min) applied to one
+	var isAccD func(v ssa.Value, d int) bool
+	isAccD = func(v ssa.Value, d int) bool {
+		if opt.Acc != nil && v == ssa.Value(opt.Acc) {
+			return true
+		}
+		if p, ok := v.(*ssa.Phi); ok {
+			return fam[p]
+		}
+		if d < 4 {
+			for _, a := range c.c08LoweringOperands(v, opt.depth) {
+				if isAccD(a, d+1) {
+					return true
+				}
+			}
+		}
+		return false
+	}
+	isAccVal := func(v ssa.Value) bool { return isAccD(v, 0) }
+	// an entry is an initial value when it enters before the accumulator is
+	// live: its edge is not reachable from the block of any family phi
+	// accumulator mode: some entry is a step relative to the accumulator (a
+	// lowering call on it, or a candidate taken behind candidate < accumulator).
+	// Only then is there an "initial value"; a plain merge of alternatives is
+	// decided pairwise with no entry exempt.
+	accMode := false
+	for _, en := range ents {
+		if _, isPhi := en.Val.(*ssa.Phi); isPhi || (opt.Acc != nil && en.Val == ssa.Value(opt.Acc)) {
+			continue
+		}
+		if isAccVal(en.Val) {
+			accMode = true
+			break
+		}
+		if len(fam) > 0 || opt.Acc != nil {
+			if ok, _ := c.c08AltGuarded(en, append(c08LT(c08SameAs(Desc(en.Val)), func(e *Expr) bool { e = strip(e); return e != nil && e.V != nil && isAccVal(e.V) }), opt.Extra...)); ok {
+				accMode = true
+				break
+			}
+		}
+	}
+	isInitial := func(en c08Alt) bool {
+		if !accMode || en.At != nil || len(fam) == 0 {
+			return false
+		}
+		for q := range fam {
+			if c08BlockReaches(q.Block(), en.P) {
+				return false
+			}
+		}
+		return true
+	}
+	isAcc := func(e *Expr) bool {
+		e = strip(e)
+		return e != nil && e.V != nil && isAccVal(e.V)
+	}
+	hasAcc := len(fam) > 0 || opt.Acc != nil
+	// distinct candidate values
+	var distinct []ssa.Value
+	seen := map[ssa.Value]bool{}
+	for _, e := range ents {
+		if !seen[e.Val] && !isAccVal(e.Val) {
+			seen[e.Val] = true
+			distinct = append(distinct, e.Val)
+		}
+	}
+	for _, en := range ents {
+		v := en.Val
+		if isAccVal(v) {
+			if _, isPhi := v.(*ssa.Phi); isPhi || (opt.Acc != nil && v == ssa.Value(opt.Acc)) {
+				continue // keeps the accumulator
+			}
+		}
+		if isInitial(en) {
+			terms = append(terms, c08Term{E: Desc(v), Loc: en})
+			continue // initial upper bound, before anything is folded
+		}
+		var own []c08Term
+		accStep := false
+		ownVals := map[ssa.Value]bool{} // operands v is by construction not larger than
+		if call, ok := v.(*ssa.Call); ok && opt.depth < 3 {
+			if b, ok := call.Call.Value.(*ssa.Builtin); ok && b.Name() == "min" {
+				for _, a := range call.Call.Args {
+					ownVals[a] = true
+					if isAccVal(a) {
+						accStep = true
+					}
+				}
+				for _, a := range call.Call.Args {
+					if isAccVal(a) {
+						continue
+					}
+					t2, p2, n2 := c.c08FoldCore([]c08Alt{{Val: a, P: en.P, S: en.S, At: en.At}}, c08FoldOpt{depth: opt.depth + 1})
+					own, probs, checks = append(own, t2...), append(probs, p2...), checks+n2
+				}
+			} else if h := call.Call.StaticCallee(); h != nil && len(h.Blocks) > 0 && h.Parent() == nil && h.Pkg != nil && en.block() != nil && h.Pkg == en.block().Parent().Pkg {
+				for i, p := range h.Params {
+					if !types.Identical(p.Type(), call.Type()) {
+						continue
+					}
+					ht, ok := c.c08HelperStep(h, i, opt.depth+1)
+					if !ok {
+						continue
+					}
+					var args []*Expr
+					for _, a := range call.Call.Args {
+						args = append(args, Desc(a))
+					}
+					for _, t := range ht {
+						own = append(own, c08Term{E: c08Subst(t.E, h, args, 0), Loc: en})
+					}
+					a := call.Call.Args[i]
+					ownVals[a] = true
+					if isAccVal(a) {
+						accStep = true
+					} else {
+						t2, p2, n2 := c.c08FoldCore([]c08Alt{{Val: a, P: en.P, S: en.S, At: en.At}}, c08FoldOpt{depth: opt.depth + 1})
+						own, probs, checks = append(own, t2...), append(probs, p2...), checks+n2
+					}
+					break
+				}
+			}
+		}
+		if own == nil {
+			own = []c08Term{{E: Desc(v), Loc: en}}
+		}
+		terms = append(terms, own...)
+		if accStep {
+			checks++
+			continue
+		}
+		ve := Desc(v)
+		// (3) candidate < accumulator
+		if hasAcc {
+			bars := append(c08LT(c08SameAs(ve), isAcc), opt.Extra...)
+			if ok, _ := c.c08AltGuarded(en, bars); ok {
+				checks++
+				continue
+			}
+		}
+		// (4) pairwise minimum among the alternatives
+		for _, u := range distinct {
+			if u == v || ownVals[u] {
+				continue
+			}
+			ue := Desc(u)
+			if strip(ue).String() == strip(ve).String() && strip(ve).String() != "?" {
+				continue // the same quantity re-evaluated
+			}
+			if ok, _ := c.c08AltGuarded(en, c08LE(c08SameAs(ve), c08SameAs(ue))); ok {
+				checks++
+				continue
+			}
+			if !c08Available(u, en.block()) {
+				if len(opt.Skip) == 0 {
+					continue
+				}
+				checks++
+				if ok, tr := c.c08AltGuarded(en, opt.Skip); !ok {
+					probs = append(probs, c08Problem{en.pos(), fmt.Sprintf("keeps %s without applying the bound %s, on a path that is not behind the only allowed bypass {%s}; path %s", c08ShortVal(v), c08ShortVal(u), c08BarNames(opt.Skip), tr)})
+				}
+				continue
+			}
+			checks++
+			_, tr := c.c08AltGuarded(en, c08LE(c08SameAs(ve), c08SameAs(ue)))
+			probs = append(probs, c08Problem{en.pos(), fmt.Sprintf("takes %s while %s is available, without a comparison establishing that the taken value is the smaller one; path %s", c08ShortVal(v), c08ShortVal(u), tr)})
+		}
+		if hasAcc && opt.Acc != nil {
+			// helper mode: a value other than the accumulator that is not behind value < accumulator
+			// and has no other alternative to be compared with raises or replaces the accumulator
+			if ok, _ := c.c08AltGuarded(en, c08LE(c08SameAs(ve), isAcc)); !ok {
+				probs = append(probs, c08Problem{en.pos(), fmt.Sprintf("returns %s instead of the accumulator without the guard value <= accumulator", c08ShortVal(v))})
+			}
+		}
+	}
+	return terms, probs, checks
+}
+
+// c08Fold reports the result of c08FoldCore under one key and returns the
+// folded candidates.
+func (c *Ctx) c08Fold(rule, key, what string, sinks []c08Alt, opt c08FoldOpt) []c08Term {
+	if len(sinks) == 0 {
+		c.unresolved(rule, key, what+": no site found")
+		return nil
+	}
+	terms, probs, n := c.c08FoldCore(sinks, opt)
+	if len(probs) > 0 {
+		for _, p := range probs {
+			c.violation(rule, key, p.Pos, what+": "+p.Msg)
+		}
+		return terms
+	}
+	var es []*Expr
+	for _, t := range terms {
+		es = append(es, t.E)
+	}
+	c.ok(rule, key, sinks[0].pos(), fmt.Sprintf("%s: only ever the minimum of {%s} (%d guard checks)", what, trunc(c08ExprList(es), 400), n))
+	return terms
+}
+
+func c08ReturnSinks(fn *ssa.Function, idx int, pred func(ssa.Instruction) bool) []c08Alt {
+	var out []c08Alt
+	for _, in := range returnsWhere(fn, idx, nil) {
+		if pred != nil && !pred(in) {
+			continue
+		}
+		out = append(out, c08Alt{Val: in.(*ssa.Return).Results[idx], At: in})
+	}
+	return out
+}
+
+func c08ArgSinks(instrs []ssa.Instruction, arg int) []c08Alt {
+	var out []c08Alt
+	for _, in := range instrs {
+		if v := callArg(in, arg); v != nil {
+			out = append(out, c08Alt{Val: v, At: in})
+		}
+	}
+	return out
+}
+
+func c08TermExprs(ts []c08Term) []*Expr {
+	var out []*Expr
+	seen := map[string]bool{}
+	for _, t := range ts {
+		s := t.E.String()
+		if seen[s] {
+			continue
+		}
+		seen[s] = true
+		out = append(out, t.E)
+	}
+	return out
+}
+
+// c08CallsAlways is a barrier crossed by a call to target, or by a call to a
+// function of the module every path of which (entry → return) crosses such a
+// call (one level of nesting): "the bound is applied" does not depend on the
+// bound call being written inline.
+var c08AlwaysMemo = map[*ssa.Function]map[*types.Func]bool{}
+
+func c08FnAlwaysCalls(h *ssa.Function, target *types.Func, depth int) bool {
+	if h == nil || len(h.Blocks) == 0 || depth > 2 {
+		return false
+	}
+	if m, ok := c08AlwaysMemo[h]; ok {
+		if v, ok := m[target]; ok {
+			return v
+		}
+	} else {
+		c08AlwaysMemo[h] = map[*types.Func]bool{}
+	}
+	c08AlwaysMemo[h][target] = false // recursion guard
+	bar := Barrier{Name: "call", Instr: func(in ssa.Instruction) bool {
+		cl, ok := in.(*ssa.Call)
+		if !ok {
+			return false
+		}
+		if callIs(&cl.Call, target) {
+			return true
+		}
+		return c08FnAlwaysCalls(cl.Call.StaticCallee(), target, depth+1)
+	}}
+	res := true
+	for _, t := range reach(entryPoint(h), []Barrier{bar}, nil).order {
+		if isReturn(t) {
+			res = false
+		}
+	}
+	c08AlwaysMemo[h][target] = res
+	return res
+}
+
+func c08CallsAlways(name string, target *types.Func) Barrier {
+	return Barrier{Name: "call " + name + " (directly or through a helper that always does)", Instr: func(in ssa.Instruction) bool {
+		cl, ok := in.(*ssa.Call)
+		if !ok {
+			return false
+		}
+		if callIs(&cl.Call, target) {
+			return true
+		}
+		h := cl.Call.StaticCallee()
+		if h == nil || h.Pkg == nil || in.Parent() == nil || h.Pkg != in.Parent().Pkg {
+			return false
+		}
+		return c08FnAlwaysCalls(h, target, 1)
+	}}
+}
+
+var c08ReachMemo = map[[2]*ssa.BasicBlock]bool{}
+
+// c08BlockReaches: to is reachable from from in the CFG (from == to counts).
+func c08BlockReaches(from, to *ssa.BasicBlock) bool {
+	if from == to {
+		return true
+	}
+	k := [2]*ssa.BasicBlock{from, to}
+	if v, ok := c08ReachMemo[k]; ok {
+		return v
+	}
+	seen := map[*ssa.BasicBlock]bool{from: true}
+	q := []*ssa.BasicBlock{from}
+	res := false
+	for len(q) > 0 && !res {
+		b := q[0]
+		q = q[1:]
+		for _, s := range b.Succs {
+			if s == to {
+				res = true
+				break
+			}
+			if !seen[s] {
+				seen[s] = true
+				q = append(q, s)
+			}
+		}
+	}
+	c08ReachMemo[k] = res
+	return res
+}
